@@ -1,5 +1,5 @@
 """C03 Sync gives a consistent snapshot, then a gap-free tail."""
-from mirlib import AnchorMissing, edge_label, switch_desc, describe_call, describe_operand, describe_place, describe_rvalue, dom_guards, guards, decision_paths, _suffix_match
+from mirlib import op_place, AnchorMissing, edge_label, switch_desc, describe_call, describe_operand, describe_place, describe_rvalue, dom_guards, guards, decision_paths, _suffix_match
 from rules import uplinks
 from rules.common import aggregates, callers_by_name, owner_def, where
 
@@ -77,14 +77,30 @@ def run(ctx):
             o = cl[0].upvar_origin(0) if se[0].args[0][0] in ("c", "m") else None
             src = [describe_operand(o[0], o[1]) for o in [cl[0].upvar_origin(k) for k in range(8)] if o is not None]
             popped = [x for x in src if "pop_front(" in x and "<Some>.0" in x]
-            r.check(("pop_front(" in d and "<Some>.0" in d) or (d == "id" and bool(popped)), "write_to_buffer/sync_event-same-id", se[0].loc(), "sync_event(id, ..) uses the id popped from the sync queue (%s)" % d[-60:],
+            # (the closure may call its captured id anything: what matters is what the enclosing function put into that capture)
+            ap = op_place(se[0].args[0])
+            ap = cl[0].resolve(ap) if ap is not None else None
+            from_popped = False
+            if ap is not None and ap.root == 1 and ap.fields:
+                for k in range(8):
+                    o = cl[0].upvar_origin(k)
+                    if o is not None and ("upvar%d" % k) in str(ap.fields[0]) or (o is not None and str(ap.fields[0]) == str(k)):
+                        dd = describe_operand(o[0], o[1])
+                        from_popped = from_popped or ("pop_front(" in dd and "<Some>.0" in dd)
+            r.check(("pop_front(" in d and "<Some>.0" in d) or from_popped or (bool(popped) and len(src) == len([x for x in src if x]) and len(popped) == 1 and not [x for x in src if "pop_front(" not in x and x not in ("store", "self.store", "encoder", "buffer")] ), "write_to_buffer/sync_event-same-id", se[0].loc(), "sync_event(id, ..) uses the id popped from the sync queue (%s)" % d[-60:],
                     "sync_event is given %s, not the id popped from the sync queue" % d[-80:])
         dsa = [a for a in aggregates(wb, "agent_model::WriteResult", "DataStillAvailable")]
         done = [a for a in aggregates(wb, "agent_model::WriteResult", "Done") if wb.dominates(ve["Some"], a[0])]
         ok = bool(dsa) and bool(done)
         for a in dsa:
             g = guards(wb, a[0])
-            ok = ok and any("has_data_to_write(" in d or "is_empty(" in d for d, l, _ in g)
+            # the test may be a hoisted `let more = store.has_data_to_write() || !queue.is_empty()`: look at what flows into the tested value
+            def feeds(sb):
+                t_ = wb.term(sb)
+                if t_.get("k") != "switch":
+                    return False
+                return any(x[0] == "call" and x[1].name in ("has_data_to_write", "is_empty") for x in wb.sources(t_["discr"], stop_at_calls=False))
+            ok = ok and (any("has_data_to_write(" in d or "is_empty(" in d for d, l, _ in g) or any(feeds(sb) for d, l, sb in g))
         r.check(ok, "write_to_buffer/still-dirty-while-owed", where(wb), "DataStillAvailable iff the store is dirty or more syncs are queued", "the sync branch never reports DataStillAvailable: queued syncs / a pending change are forgotten")
 
     with ctx.rule("C03.R3", "T2", "a live map event removes its key from (a clear empties) every pending snapshot before it is emitted", floor=4) as r:
